@@ -212,13 +212,13 @@ def rand_limit(rng, world, p_none=0.4):
     if rng.random() < p_none:
         return None
     n = len(world.sd)
-    return rng.choice([0, 1, 2, 3, 4, n, n + 1, n + 2, n + 5])
+    return rng.choice([0, 1, 2, 3, 4, n, n + 1, n + 2, n + 5, 0, 1, 2, 3, 4, n, n + 1, n + 2, n + 5, -1])
 
 
 def rand_small(rng, p_none=0.5):
     if rng.random() < p_none:
         return None
-    return rng.choice([0, 1, 2, 3])
+    return rng.choice([0, 1, 2, 3, 0, 1, 2, 3, -1])
 
 
 def plain_op(world, rng, ref_targets=True):
@@ -271,6 +271,8 @@ def attr_op(world, rng, nid=None, pred=None):
             nid = 0
     r = rng.random()
     sp = world.space_of(nid)
+    if rng.random() < 0.06:
+        return {"op": rng.choice(["exp_seeds", "exp_sets", "exp_candidates"])}
     if r < 0.35:
         return {"op": "candidates", "node": sp, "compute": True, "greedy": rng.random() < 0.6, "sim": rng.random() < 0.6}
     if r < 0.75:
@@ -322,8 +324,10 @@ def query_op(world, rng):
     if r < 0.6:
         return {"op": "minimal_trap_spaces"}
     nid = pick_node(world, rng)
-    if r < 0.8:
+    if r < 0.72:
         return {"op": "find_node", "space": world.space_of(nid)}
+    if r < 0.8:
+        return {"op": rng.choice(["scc_subdiagrams", "edge_motifs"]), "node": world.space_of(nid)}
     # percolated data of a node (answers must not depend on what is cached)
     return {"op": rng.choice(["perc_network", "perc_nfvs", "perc_pn"]), "node": world.space_of(nid)}
 
@@ -331,6 +335,21 @@ def query_op(world, rng):
 def full_op(world, rng, w=None):
     """Full alphabet; w = weights (structural, attr, cache, pickle, control, query)."""
     w = w or (0.42, 0.30, 0.10, 0.06, 0.06, 0.06)
+    r0 = rng.random()
+    if r0 < 0.04 and len(world.log) > 1 and not world.log[-1]["op"].get("fault"):
+        # the same call again (idempotence / accumulating state)
+        prev = dict(world.log[-1]["op"])
+        prev.pop("fail_at", None)
+        prev.pop("fail_exc", None)
+        if prev.get("op") not in ("construct",):
+            return prev
+    if r0 > 0.97:
+        # the configuration is a live, documented dict: changing it between calls is legal
+        from .netgen import DEFAULT_CONFIG
+
+        name = rng.choice(["attractor_candidates_limit", "retained_set_optimization_threshold", "minimum_simulation_budget", "nfvs_size_threshold", "max_motifs_per_node"])
+        val = rng.choice([0, 1, 2, 3, 5, DEFAULT_CONFIG[name], DEFAULT_CONFIG[name]])
+        return {"op": "set_knob", "name": name, "value": val}
     r = rng.random() * sum(w)
     if r < w[0]:
         return structural_op(world, rng)
